@@ -757,6 +757,58 @@ def cancel_sweep(res: Result, only: str | None = None) -> int:
     return n
 
 
+def refused_call_sweep(res: Result) -> int:
+    """A call the library cannot even encode (handle or address outside the wire type, wrong Python type) raises - and, like every
+    finished operation, leaves nothing subscribed and no timer behind."""
+    n = 0
+    h = BleHarness((), (), "none")
+    bad_values: list[tuple[str, Any, Any]] = [("handle=2**32", ADDR[1], 2**32), ("handle=-1", ADDR[1], -1), ("address=2**64", 2**64, HAND[1]),
+                                               ("address=-5", -5, HAND[1]), ("handle='7'", ADDR[1], "7"), ("address=None", None, HAND[1])]
+    for label, addr, hd in bad_values:
+        w = h.fresh()
+        try:
+            c = w.client
+            base_timers = sorted(timer_name(x) for x in w.loop.live_timers())
+            calls = {
+                "start_notify": lambda: c.bluetooth_gatt_start_notify(addr, hd, lambda hh, data: None),
+                "read": lambda: c.bluetooth_gatt_read(addr, hd),
+                "write": lambda: c.bluetooth_gatt_write(addr, hd, b"x", True),
+                "read_descriptor": lambda: c.bluetooth_gatt_read_descriptor(addr, hd),
+                "device_connect": lambda: c.bluetooth_device_connect(addr, lambda a, b, cc: None, timeout=5.0),
+                "device_disconnect": lambda: c.bluetooth_device_disconnect(addr),
+                "get_services": lambda: c.bluetooth_gatt_get_services(addr),
+            }
+            for name, fn in calls.items():
+                if name in ("device_connect", "device_disconnect", "get_services") and label.startswith("handle"):
+                    continue
+                w.spawn(f"{name}:{label}", fn)
+                w.drain()
+                n += 1
+                key = f"refused:{name}:{label}"
+                r = w.results.get(f"{name}:{label}")
+                if r is None:
+                    w.cancel(f"{name}:{label}")  # the value was accepted after all (not a refusal): abandon the call
+                    w.drain()
+                    continue
+                if r[0] != "exc":
+                    continue
+                table = w.handler_table()
+                if w.is_open() and table is not None and table != w.base_handlers:
+                    diff = {k: (table.get(k, 0), (w.base_handlers or {}).get(k, 0)) for k in set(table) | set(w.base_handlers or {})
+                            if table.get(k, 0) != (w.base_handlers or {}).get(k, 0)}
+                    res.add(key, f"C16:leftover-handler:{name}({label}) was refused with {type(r[1]).__name__}, but handlers stay registered (actual, baseline): {diff}",
+                            {"harness": "c16-refused", "key": key})
+                    break
+                timers = sorted(timer_name(x) for x in w.loop.live_timers())
+                if timers != base_timers:
+                    res.add(key, f"C16:leftover-timer:{name}({label}) was refused with {type(r[1]).__name__}, timers {timers}, baseline {base_timers}",
+                            {"harness": "c16-refused", "key": key})
+                    break
+        finally:
+            h.close(w)
+    return n
+
+
 def reentrancy_sweep(res: Result, only: str | None = None) -> int:
     """An operation started from inside a Bluetooth callback - while a message of the very type the new operation subscribes to is being
     dispatched: the new operation and every other pending one (other address included) complete with their own responses."""
@@ -866,6 +918,7 @@ def run(tier: str, seed: int) -> Result:
         total.merge(st)
     n_cancel = cancel_sweep(res)
     n_reent = reentrancy_sweep(res)
+    n_refused = refused_call_sweep(res)
     ends = {k[4:] for k in total.tags if k.startswith("end:")}
     need = {"read:ok", "read:BluetoothGATTAPIError", "read:BluetoothConnectionDroppedError", "read:TimeoutAPIError", "conn:ok", "conn:TimeoutAPIError"}
     if not res.violations and not need <= ends:
@@ -878,6 +931,7 @@ def run(tier: str, seed: int) -> Result:
         "endings_observed": sorted(ends),
         "caller_cancellation_runs": n_cancel,
         "reentrant_start_runs": n_reent,
+        "refused_call_runs": n_refused,
         "distinct_outcomes": len(total.outcomes),
         "configs": per_cfg,
         "exhaustive": not total.time_capped,
@@ -899,6 +953,12 @@ def run(tier: str, seed: int) -> Result:
 
 def replay(rp: dict[str, Any]) -> bool:
     d = rp["detail"]
+    if d.get("harness") == "c16-refused":
+        r = Result("C16", "model_checking")
+        refused_call_sweep(r)
+        bad = [v for v in r.violations if v.key == d["key"]]
+        print(d["key"], "->", [v.clause for v in bad] or "holds")
+        return not bad
     if d.get("harness") == "c16-reentrant":
         r = Result("C16", "model_checking")
         reentrancy_sweep(r, only=d["key"])
